@@ -91,9 +91,42 @@ Definition no_dup_class (items : list ilit) : bool :=
   forallb (fun i => match i with IP dup _ => negb dup | IO _ _ => true end) items.
 
 Definition hyp_ok (items : list ilit) (d : doc) : bool :=
-  if no_dup_class items then doc_ok d else true.
+  if no_dup_class items then doc_wf d else true.
+
+(** the paragraph re-reader of the model ([scan_para], the subject of C05_reread theorems) makes
+    of each paragraph's text what the implementation's parser made of it *)
+Definition field_eqb (a b : field) : bool :=
+  str_eqb (f_comment a) (f_comment b) && str_eqb (f_name a) (f_name b) && str_eqb (f_rest a) (f_rest b).
+
+Definition reread_ok (d : doc) : bool :=
+  forallb (fun p => result_eqb (list_eqb field_eqb) (scan_para (para_text p)) (Ok (para_fields p)))
+          (paras d).
+
+(** ... and for histories that start with repeated names: whenever a state has none left, it
+    is [doc_ok] (the duplicate-fields class with its index consistent, colons, line structure) *)
+Definition hyp_state (d : doc) : bool :=
+  if forallb (fun p => nodup_names (para_fields p)) (paras d) then doc_wf d else true.
 
 Definition model_read (d : doc) : list (list (str * result str)) := map read_para (paras d).
+
+(** ... and what it reads in the edited paragraphs is what the implementation's FRESH parse of
+    the dump shows: names and values of the non-empty paragraphs, in order *)
+Definition reread_rows (d : doc) : option (list (list (str * result str))) :=
+  fold_right (fun p acc =>
+                match para_fields p, scan_para (para_text p), acc with
+                | [], _, _ => acc                      (* an emptied paragraph is not in the dump *)
+                | _, Ok fs, Some rows => Some (map (fun f => (f_name f, Ok (value_str f))) fs :: rows)
+                | _, _, _ => None
+                end) (Some []) (paras d).
+
+Definition reparse_agree (d : doc) (st : steplit) : bool :=
+  match s_reparse st with
+  | Some r => match reread_rows d with
+              | Some rows => read_eqb' rows (dec_read r)
+              | None => false
+              end
+  | None => true
+  end.
 
 Fixpoint agree_steps (d : doc) (ops : list op) (steps : list steplit) : bool :=
   match ops, steps with
@@ -103,6 +136,9 @@ Fixpoint agree_steps (d : doc) (ops : list op) (steps : list steplit) : bool :=
       option_eqb err_eqb e (s_err st)
       && str_eqb (dump d') (dec_text (s_dump st))
       && read_eqb' (model_read d') (dec_read (s_paras st))
+      && hyp_state d'
+      && reread_ok d'
+      && reparse_agree d' st
       && agree_steps d' ops' steps'
   | _, _ => false
   end.
@@ -116,6 +152,7 @@ Definition agree (c : case) : bool :=
       let d := map dec_item items in
       forallb class_ok items
       && hyp_ok items d
+      && reread_ok d
       && str_eqb (dump d) (dec_text text)
       && read_eqb' (model_read d) (dec_read init)
       && agree_steps d (map dec_op ops) steps
